@@ -167,13 +167,17 @@ DecSec1c(d) == IF Len(d) # 1 + F.nd THEN {}
 \* strict variant (proposed repair for curves that have a point with x = 0): identity = 00 || 0...0
 EncSec1cS(e) == IF e = O THEN <<0>> \o Zeros(F.nd) ELSE EncSec1c(e)
 DecSec1cS(d) == IF Len(d) = 1 + F.nd /\ d[1] = 0 THEN (IF AllZero(d) THEN {O} ELSE {}) ELSE DecSec1c(d)
+\* what 02/03 || x denotes: the point with that abscissa and parity; where the curve has NO point with x = 0 the library
+\* reads x = 0 as the identity (a redundant spelling, "free"); the reserved identity string itself is Enc(O) (see Bools)
 SemSec1c(d) == LET xr == ValBE(Slot(d, 1, 1))
                    x == xr % P
-                   idp == IF F.variant = "coded" THEN x = 0 ELSE d[1] = 0
-               IN [fl |-> [prefix |-> IF F.variant = "strict" /\ d[1] = 0 THEN 2 ELSE d[1]],
-                   idform |-> IF ~idp THEN "no" ELSE IF AllZero(Tail(d)) /\ d[1] \in {0, 2} THEN "canon" ELSE "noncanon",
+                   idE == IF F.variant = "strict" THEN EncSec1cS(O) ELSE EncSec1c(O)
+               IN [fl |-> [prefix |-> d[1]],
+                   idform |-> IF d = idE THEN "canon" ELSE IF x = 0 /\ WAt(0) = {} THEN "noncanon" ELSE "no",
                    red |-> xr < P,
-                   els |-> IF idp THEN (IF F.variant = "coded" \/ AllZero(d) THEN {O} ELSE {})
+                   els |-> IF d = idE THEN {O}
+                           ELSE IF d[1] \notin {2, 3} THEN {}
+                           ELSE IF x = 0 /\ WAt(0) = {} THEN {O}
                            ELSE {A \in WAt(x) : A[2] = 0 \/ A[2] % 2 = d[1] % 2}]
 EncSec1u(e) == IF e = O THEN <<4>> \o Zeros(2 * F.nd) ELSE <<4>> \o DigBE(e[1], F.nd) \o DigBE(e[2], F.nd)
 DecSec1u(d) == IF Len(d) # 1 + 2 * F.nd THEN {}
@@ -391,10 +395,12 @@ Sem(d) == IF ~LenOK(d) THEN NoSem
                  [] F.name = "gt" -> SemGt(d)
                  [] F.name = "fle" -> SemF(ValLE(d))
                  [] OTHER -> SemF(ValBE(d))
+\* the reserved encoding of the identity is a convention of the encoder: whatever Enc(O) is, it is well formed
+IdEncoding(d) == IsCurve /\ d = Enc(O)
 \* the oracle's booleans for a string
 Bools(d) == LET m == Sem(d) IN
             [lenOK |-> LenOK(d),
-             flagsOK |-> LenOK(d) => FlagRule(F.name, m.fl),
+             flagsOK |-> LenOK(d) => (IdEncoding(d) \/ FlagRule(F.name, m.fl)),
              valid |-> m.els # {} /\ \A e \in m.els : Valid(e),
              canon |-> \E e \in m.els : Enc(e) = d]
 \* what C13 demands of a decoder on d, read off the encoder and the semantics
@@ -429,7 +435,7 @@ RoundTrip(e) == Enc(e) # PANIC /\ Dec(Enc(e)) = {e}
 RoundTripModSign(e) == Enc(e) # PANIC /\ e \in Dec(Enc(e)) /\ Dec(Enc(e)) \subseteq {e, NegP(e)}
 Injective(e) == \A e2 \in Elems : e2 # e /\ Encodable(e2) => Enc(e2) # Enc(e)
 InjectiveModSign(e) == \A e2 \in Elems : e2 \notin {e, NegP(e)} => Enc(e2) # Enc(e)
-EncSem(e) == LET d == Enc(e) IN d # PANIC /\ LenOK(d) /\ FlagRule(F.name, Sem(d).fl) /\ e \in Sem(d).els
+EncSem(e) == LET d == Enc(e) IN d # PANIC /\ LenOK(d) /\ (IdEncoding(d) \/ FlagRule(F.name, Sem(d).fl)) /\ e \in Sem(d).els
 NoPanicE(e) == Enc(e) # PANIC
 
 (****************************************************************************************)
